@@ -1078,7 +1078,7 @@ func evalConsumer(c *Ctx, call *ssa.Call, cell string) ([]string, string) {
 			if callee == nil || !c.P.fnIndex[callee] {
 				return nil, "passed to " + trimMod(calleeName(x))
 			}
-			tb, err := extractTable(callee)
+			tb, err := c.extractTableComposed(callee, 0)
 			if err != nil {
 				return nil, "decoder " + shortName(callee) + " is not a decision table: " + err.Error()
 			}
